@@ -71,6 +71,17 @@ package cert
 //@   assigns *
 //@   // every turn of the loop either waits or publishes a set
 //@   loop 1 iteration ensures sleeps > old(sleeps) || chanSends > old(chanSends)
+//@   // a turn in which the source failed or its material could not be made into certificates publishes nothing: the
+//@   // working set stays
+//@   loop 1 iteration ensures err != nil ==> chanSends == old(chanSends)
+//@
+//@ // the consul source has a loop of its own (KV snapshots arrive on a channel): same rule - a snapshot that cannot be
+//@ // made into certificates is dropped, a good one is published exactly once
+//@ func (ConsulSource).Certificates$1
+//@   props C11
+//@   assigns *
+//@   loop 1 iteration ensures err != nil ==> chanSends == old(chanSends)
+//@   loop 1 iteration ensures err == nil ==> chanSends == old(chanSends) + 1
 //@
 //@ // ---- C11: a reload swaps the whole set; readers hold either the old or the new one --------------------------
 //@ func (*Store).SetCertificates
